@@ -407,6 +407,22 @@ func runC02(c *fw.Ctx) {
 			}
 		}
 	}
+	// Part E: two resumable sessions in flight at once, continued in alternation: on two names, and on the SAME name
+	for _, store := range stores {
+		for _, n2 := range []string{"sess/b", "sess/a"} {
+			for _, d := range [][2]string{{"AAAAAA", "bbbb"}, {"A", "bbbbbbbb"}, {"", "bb"}, {"AAAA", ""}} {
+				item++
+				if !c.Mine(item) {
+					continue
+				}
+				up := GOp{Kind: "Upload2", Bucket: "b1", Name: "sess/a", Data: []byte(d[0]), Meta: gcs.ObjMeta{ContentType: "text/first", Metadata: map[string]string{"session": "A"}}, Name2: n2, Data2: []byte(d[1])}
+				ops := append(append([]GOp(nil), setup...), up)
+				if ok, _ := tryGCS(c, "C02", gcsCase{Store: store, Ops: ops}, c02Tag); ok {
+					c.Outcome("two-sessions")
+				}
+			}
+		}
+	}
 	c.Bound("names", c02Names)
 	c.Bound("payload_sizes", func() []int {
 		var s []int
